@@ -12,9 +12,18 @@ import BlocV.Model.Ops
 namespace BlocV
 open Num
 
-abbrev Thunk := Unit → Res Val
+/-- Built-ins run in any monad `m` into which `Res` lifts: `Res` itself for the value-level theorems
+and the driver's `bi` command, the interpreter's state monad (Model/Interp.lean) for programs, where
+forcing an argument thunk may print, call functions or fail. -/
+abbrev Thunk (m : Type → Type) := m Val
 
-def argTypeErr {α} : Res α := .err Gen.EXC_RT_FUNC_ARG_TYPE_S
+section
+variable {m : Type → Type} [Monad m] [MonadLiftT Res m]
+
+def liftR {α} (r : Res α) : m α := liftM r
+
+def argTypeErr {α} : m α := liftR (.err Gen.EXC_RT_FUNC_ARG_TYPE_S)
+def rerr {α} (code : Nat) : m α := liftR (.err code)
 
 /-- The C++ cast `Integer(d)` of a double: truncation when representable, undefined otherwise. -/
 def castToInt (d : F64) : Res Int64 :=
@@ -54,13 +63,13 @@ def sliceBytes (s : Bytes) (a b : Int64) : Bytes := (s.drop a.toNatClampNeg).tak
 /-- Shared body of `substr` (strings) and `subraw` (bytes). `mk` rebuilds the value, `get` is the
 typed accessor, `nullTy` the type of the result for an untyped-null first argument. -/
 def substrLike (major : Major) (nullTy : Ty) (get : Val → Res Bytes) (mk : Bytes → Val)
-    (args : List Thunk) : Res Val := do
+    (args : List (Thunk m)) : m Val := do
   match args with
   | t0 :: t1 :: rest =>
-    let val ← t0 ()
+    let val ← t0
     if val.type.major == .none then return .null nullTy
     if val.type.major != major then argTypeErr else
-    let a1 ← t1 ()
+    let a1 ← t1
     match ← readPos a1 with
     | .retVal => return val
     | .pos a0 =>
@@ -70,7 +79,7 @@ def substrLike (major : Major) (nullTy : Ty) (get : Val → Res Bytes) (mk : Byt
       let mut b := c
       match rest with
       | t2 :: _ =>
-        let a2 ← t2 ()
+        let a2 ← t2
         match ← readPos a2 with
         | .retVal => return val
         | .pos b0 => b := b0
@@ -82,17 +91,17 @@ def substrLike (major : Major) (nullTy : Ty) (get : Val → Res Bytes) (mk : Byt
       if a ≥ 0 && b' > 0 then return mk (sliceBytes s a b') else return mk []
   | _ => argTypeErr
 
-def biSubstr := substrLike .str Ty.str Val.asStr Val.str
-def biSubraw := substrLike .raw Ty.raw Val.asRaw Val.raw
+def biSubstr (args : List (Thunk m)) : m Val := substrLike .str Ty.str Val.asStr Val.str args
+def biSubraw (args : List (Thunk m)) : m Val := substrLike .raw Ty.raw Val.asRaw Val.raw args
 
 /-- `lsubstr` / `rsubstr`. -/
-def lrSubstr (left : Bool) (args : List Thunk) : Res Val := do
+def lrSubstr (left : Bool) (args : List (Thunk m)) : m Val := do
   match args with
   | t0 :: t1 :: _ =>
-    let val ← t0 ()
+    let val ← t0
     if val.type.major == .none then return .null Ty.str
     if val.type.major != .str then argTypeErr else
-    let a1 ← t1 ()
+    let a1 ← t1
     match ← readPos a1 with
     | .retVal => return val
     | .pos b =>
@@ -117,11 +126,11 @@ def findFrom (hay needle : Bytes) (from_ : Nat) : Option Nat :=
       else go fuel (i + 1)
   go (hay.length + 1) from_
 
-def biStrpos (args : List Thunk) : Res Val := do
+def biStrpos (args : List (Thunk m)) : m Val := do
   match args with
   | t0 :: t1 :: rest =>
-    let val ← t0 ()
-    let a1 ← t1 ()
+    let val ← t0
+    let a1 ← t1
     match val.type.major with
     | .none => return .null Ty.int
     | .str =>
@@ -129,13 +138,13 @@ def biStrpos (args : List Thunk) : Res Val := do
       let mut s : Int64 := 0
       match rest with
       | t2 :: _ =>
-        let a2 ← t2 ()
+        let a2 ← t2
         match a2.type.major with
         | .none => return .null Ty.int
         | .int => s ← a2.asInt            -- no null test in the C++: nullDeref for a typed null
         | .num => do let d ← a2.asNum; s ← castToInt d
         | _ => argTypeErr
-        if s < 0 then .err Gen.EXC_RT_INDEX_RANGE_S else pure ()
+        if s < 0 then rerr Gen.EXC_RT_INDEX_RANGE_S else pure ()
       | [] => pure ()
       let hay ← val.asStr
       let needle ← a1.asStr
@@ -154,11 +163,11 @@ def replaceLoop (hay needle repl : Bytes) : Nat → Nat → Bytes → Bytes
       | some e => replaceLoop hay needle repl fuel (e + needle.length) (acc ++ (hay.drop p).take (e - p) ++ repl)
       | none => acc ++ hay.drop p
 
-def biReplace (args : List Thunk) : Res Val := do
+def biReplace (args : List (Thunk m)) : m Val := do
   match args with
   | t0 :: t1 :: t2 :: _ =>
-    let val ← t0 ()
-    let a1 ← t1 ()
+    let val ← t0
+    let a1 ← t1
     match val.type.major with
     | .none => return .null Ty.str
     | .str =>
@@ -167,7 +176,7 @@ def biReplace (args : List Thunk) : Res Val := do
       | .str => if a1.isNull then return val else pure ()
       | _ => argTypeErr
       if val.isNull then return val
-      let a2 ← t2 ()
+      let a2 ← t2
       match a2.type.major with
       | .none | .str => pure ()
       | _ => argTypeErr
@@ -183,10 +192,10 @@ def dropWhileSp (s : Bytes) : Bytes := s.dropWhile (· == 32)
 def rtrimSp (s : Bytes) : Bytes := (s.reverse.dropWhile (· == 32)).reverse
 
 /-- One-string-argument functions: NO_TYPE → null string; null string → itself. -/
-def strMap (f : Bytes → Bytes) (args : List Thunk) : Res Val := do
+def strMap (f : Bytes → Bytes) (args : List (Thunk m)) : m Val := do
   match args with
   | t0 :: _ =>
-    let val ← t0 ()
+    let val ← t0
     match val.type.major with
     | .none => return .null Ty.str
     | .str => if val.isNull then return val else do let s ← val.asStr; return .str (f s)
@@ -197,10 +206,10 @@ def strMap (f : Bytes → Bytes) (args : List Thunk) : Res Val := do
 def upperByte (c : UInt8) : UInt8 := if 97 ≤ c ∧ c ≤ 122 then c - 32 else c
 def lowerByte (c : UInt8) : UInt8 := if 65 ≤ c ∧ c ≤ 90 then c + 32 else c
 
-def biStrlen (args : List Thunk) : Res Val := do
+def biStrlen (args : List (Thunk m)) : m Val := do
   match args with
   | t0 :: _ =>
-    let val ← t0 ()
+    let val ← t0
     match val.type.major with
     | .none => return .null Ty.int
     | .str => if val.isNull then return .null Ty.int else do let s ← val.asStr; return .int (lenI s)
@@ -224,14 +233,14 @@ def tokenize (s sep : Bytes) (trim : Bool) : List Bytes :=
 
 def tabStrTy : Ty := { major := .str, level := 1 }
 
-def biTokenize (args : List Thunk) : Res Val := do
+def biTokenize (args : List (Thunk m)) : m Val := do
   match args with
   | t0 :: t1 :: rest =>
-    let val ← t0 ()
+    let val ← t0
     match val.type.major with
     | .none => return .null tabStrTy
     | .str =>
-      let a1 ← t1 ()
+      let a1 ← t1
       let sep ← match a1.type.major with
         | .none => pure []
         | .str => if a1.isNull then pure [] else a1.asStr
@@ -239,7 +248,7 @@ def biTokenize (args : List Thunk) : Res Val := do
       let mut trim := false
       match rest with
       | t2 :: _ =>
-        let a2 ← t2 ()
+        let a2 ← t2
         if !a2.isNull then trim ← a2.asBool
       | [] => pure ()
       if val.isNull then return .null tabStrTy
@@ -265,15 +274,15 @@ def hexLoop (v : Int64) : Nat → Int64 → Int64 → Bytes → Res Bytes
     | .haz h => .haz h
     | .unmodelled => .unmodelled
 
-def biHex (args : List Thunk) : Res Val := do
+def biHex (args : List (Thunk m)) : m Val := do
   match args with
   | t0 :: rest =>
-    let arg0 ← t0 ()
+    let arg0 ← t0
     if arg0.isNull then return .null Ty.str
     let mut n : Int64 := 0
     match rest with
     | t1 :: _ =>
-      let arg1 ← t1 ()
+      let arg1 ← t1
       if !arg1.isNull then
         match arg1.type.major with
         | .int => n ← arg1.asInt
@@ -292,25 +301,25 @@ def biHex (args : List Thunk) : Res Val := do
 def djb32 (s : Bytes) : UInt32 :=
   s.foldl (fun h c => ((h <<< 5) + h) + (if c < 128 then c.toUInt32 else c.toUInt32 + 0xffffff00)) 5381
 
-def biHash (args : List Thunk) : Res Val := do
+def biHash (args : List (Thunk m)) : m Val := do
   match args with
   | t0 :: rest =>
-    let val ← t0 ()
+    let val ← t0
     let mut maxSize : UInt32 := 0xffffffff
     match rest with
     | t1 :: _ =>
-      let a1 ← t1 ()
+      let a1 ← t1
       match a1.type.major with
       | .none => pure ()
       | .int =>
         if !a1.isNull then
           let i ← a1.asInt
-          if i < 1 || i > 4294967295 then .err Gen.EXC_RT_OUT_OF_RANGE else maxSize := i.toUInt64.toUInt32
+          if i < 1 || i > 4294967295 then rerr Gen.EXC_RT_OUT_OF_RANGE else maxSize := i.toUInt64.toUInt32
       | .num =>
         if !a1.isNull then
           let d ← a1.asNum
           -- !(d >= 1.0 && d <= 4294967295.0) → OUT_OF_RANGE; then (uint32_t)d truncates
-          if !(fle 0x3ff0000000000000 d && fle d 0x41efffffffe00000) then .err Gen.EXC_RT_OUT_OF_RANGE
+          if !(fle 0x3ff0000000000000 d && fle d 0x41efffffffe00000) then rerr Gen.EXC_RT_OUT_OF_RANGE
           else do let i ← castToInt d; maxSize := i.toUInt64.toUInt32
       | _ => argTypeErr
     | [] => pure ()
@@ -323,30 +332,30 @@ def biHash (args : List Thunk) : Res Val := do
     | _ => argTypeErr
   | _ => argTypeErr
 
-def biChr (args : List Thunk) : Res Val := do
+def biChr (args : List (Thunk m)) : m Val := do
   match args with
   | t0 :: _ =>
-    let val ← t0 ()
+    let val ← t0
     match val.type.major with
     | .none => return .null Ty.str
     | .int =>
       if val.isNull then return .null Ty.str
       let c ← val.asInt
-      if c < 0 || c > 255 then .err Gen.EXC_RT_OUT_OF_RANGE else return .str [c.toUInt64.toUInt8]
+      if c < 0 || c > 255 then rerr Gen.EXC_RT_OUT_OF_RANGE else return .str [c.toUInt64.toUInt8]
     | .num =>
       if val.isNull then return .null Ty.str
       let d ← val.asNum
       -- !(c >= 0.0 && c < 256.0) → OUT_OF_RANGE
-      if !(fle 0 d && flt d 0x4070000000000000) then .err Gen.EXC_RT_OUT_OF_RANGE
+      if !(fle 0 d && flt d 0x4070000000000000) then rerr Gen.EXC_RT_OUT_OF_RANGE
       else do let i ← castToInt d; return .str [i.toUInt64.toUInt8]
     | _ => argTypeErr
   | _ => argTypeErr
 
-def biRaw (args : List Thunk) : Res Val := do
+def biRaw (args : List (Thunk m)) : m Val := do
   match args with
   | [] => return .null Ty.raw
   | t0 :: rest =>
-    let val ← t0 ()
+    let val ← t0
     if val.isNull then return .null Ty.raw
     let n ← match val.type.major with
       | .str => do let s ← val.asStr; return .raw s
@@ -354,17 +363,17 @@ def biRaw (args : List Thunk) : Res Val := do
       | .num => do let d ← val.asNum; castToInt d
       | .raw => return val
       | _ => argTypeErr
-    if n < 0 then .err Gen.EXC_RT_INDEX_RANGE_S else
+    if n < 0 then rerr Gen.EXC_RT_INDEX_RANGE_S else
     let mut v : Int64 := 0
     match rest with
     | t1 :: _ =>
-      let a1 ← t1 ()
+      let a1 ← t1
       if !a1.isNull then
         match a1.type.major with
         | .int => v ← a1.asInt
         | .num => do let d ← a1.asNum; v ← castToInt d
         | _ => argTypeErr
-      if v < 0 || v > 255 then .err Gen.EXC_RT_OUT_OF_RANGE else pure ()
+      if v < 0 || v > 255 then rerr Gen.EXC_RT_OUT_OF_RANGE else pure ()
     | [] => pure ()
     return .raw (List.replicate n.toNatClampNeg v.toUInt64.toUInt8)
 
@@ -428,33 +437,33 @@ def looksHex (s : Bytes) : Bool :=
   | 48 :: x :: _ => x == 120 || x == 88
   | _ => false
 
-def biInt (args : List Thunk) : Res Val := do
+def biInt (args : List (Thunk m)) : m Val := do
   match args with
   | [] => return .null Ty.int
   | t0 :: _ =>
-    let val ← t0 ()
+    let val ← t0
     if val.isNull then return .null Ty.int
     match val.type.major with
     | .str =>
       let s ← val.asStr
       if looksHex s then
         match stoull16 s with
-        | .invalid => .err Gen.EXC_RT_STRING_TO_NUM
-        | .range => .err Gen.EXC_RT_OUT_OF_RANGE
+        | .invalid => rerr Gen.EXC_RT_STRING_TO_NUM
+        | .range => rerr Gen.EXC_RT_OUT_OF_RANGE
         | .val z => return .int (Int64.ofInt z)
       else match stoll s with
-        | .invalid => .err Gen.EXC_RT_STRING_TO_NUM
-        | .range => .err Gen.EXC_RT_OUT_OF_RANGE
+        | .invalid => rerr Gen.EXC_RT_STRING_TO_NUM
+        | .range => rerr Gen.EXC_RT_OUT_OF_RANGE
         | .val z => return .int (Int64.ofInt z)
     | .raw =>
       let s ← val.asRaw
       match stoll s with
-      | .invalid => .err Gen.EXC_RT_STRING_TO_NUM
-      | .range => .err Gen.EXC_RT_OUT_OF_RANGE
+      | .invalid => rerr Gen.EXC_RT_STRING_TO_NUM
+      | .range => rerr Gen.EXC_RT_OUT_OF_RANGE
       | .val z => return .int (Int64.ofInt z)
     | .num => do let d ← val.asNum; let i ← intOfDecimal d; return .int i
     | .int => return val
-    | .imag => .unmodelled
+    | .imag => liftR .unmodelled
     | .bool => do let b ← val.asBool; return .int (if b then 1 else 0)
     | _ => argTypeErr
 
@@ -509,10 +518,10 @@ def b64decode (p : Bytes) : Bytes :=
     else body ++ [b1]
   else body
 
-def biB64 (enc : Bool) (args : List Thunk) : Res Val := do
+def biB64 (enc : Bool) (args : List (Thunk m)) : m Val := do
   match args with
   | t0 :: _ =>
-    let a ← t0 ()
+    let a ← t0
     if a.isNull then return .null Ty.str
     match a.type.major with
     | .str => do let s ← a.asStr; return (if enc then .str (b64encode s) else .raw (b64decode s))
@@ -521,11 +530,11 @@ def biB64 (enc : Bool) (args : List Thunk) : Res Val := do
   | _ => argTypeErr
 
 /-- `str(x)`: boolean, integer, string, bytes (decimals need `%.16g`: Model/Fmt.lean). -/
-def biStr (fmtNum : F64 → Bytes) (args : List Thunk) : Res Val := do
+def biStr (fmtNum : F64 → Bytes) (args : List (Thunk m)) : m Val := do
   match args with
   | [] => return .null Ty.str
   | t0 :: _ =>
-    let val ← t0 ()
+    let val ← t0
     if val.isNull then return .null Ty.str
     match val.type.major with
     | .bool => do let b ← val.asBool; return .str (if b then "TRUE".toUTF8.toList else "FALSE".toUTF8.toList)
@@ -535,12 +544,14 @@ def biStr (fmtNum : F64 → Bytes) (args : List Thunk) : Res Val := do
     | .raw => do let s ← val.asRaw; return .str s
     | _ => argTypeErr
 
+end
+
 end BlocV
 
 namespace BlocV
 
 /-- Dispatch by keyword for the built-ins modelled so far; `none` = not modelled. -/
-def evalBuiltin (fmtNum : Num.F64 → Bytes) (name : String) (args : List Thunk) : Option (Res Val) :=
+def evalBuiltin {m : Type → Type} [Monad m] [MonadLiftT Res m] (fmtNum : Num.F64 → Bytes) (name : String) (args : List (Thunk m)) : Option (m Val) :=
   match name with
   | "substr" => some (biSubstr args)
   | "subraw" => some (biSubraw args)
